@@ -243,6 +243,14 @@ func genLegacy(r *fw.Rand, lib *legacyLib) ([]byte, string) {
 		rm["uuid"] = nodes[na+i].uuid
 		rm["x"] = r.Intn(800)
 		rm["y"] = fw.Pick(r, []int{0, 100, 300, r.Intn(2000)})
+		// every kind of waiting rule set (the library's definitions only have three of them): the kind decides the wait's hint
+		if t := str(rm["ruleset_type"]); (t == "wait_message" || t == "wait_photo" || t == "wait_digits") && r.Chance(0.3) {
+			nt := fw.Pick(r, []string{"wait_audio", "wait_video", "wait_photo", "wait_gps", "wait_recording", "wait_digit", "wait_digits", "wait_message"})
+			rm["ruleset_type"] = nt
+			if nt == "wait_digits" {
+				rm["finished_key"] = fw.Pick(r, []any{"#", "*", "", nil})
+			}
+		}
 		rules, _ := rm["rules"].([]any)
 		// extra rules from the test library, before the trailing rules (Other / timeout)
 		if openRuleSets[str(rm["ruleset_type"])] && r.Chance(0.6) {
